@@ -101,6 +101,17 @@ Theorem C07_json_assign_payload : forall obj attr v, tv_payload (json_validate o
 Proof. exact json_validate_payload. Qed.
 Print Assumptions C07_json_assign_payload.
 
+(* Oracle and MySQL keep a `time` as an interval: py2sql builds the timedelta, the driver hands one back, sql2py (same text in both
+   providers) rebuilds the time: exact for every valid time *)
+Theorem C07_interval_time : forall t, valid_time t ->
+  interval_time_sql2py (td_days (ora_time_py2sql t)) (td_secs (ora_time_py2sql t)) (td_us (ora_time_py2sql t)) = Some t.
+Proof. exact interval_time_roundtrip. Qed.
+Print Assumptions C07_interval_time.
+
+Theorem C07_ora_bool : forall b, ora_bool_sql2py (ora_bool_py2sql b) = b.
+Proof. exact ora_bool_roundtrip. Qed.
+Print Assumptions C07_ora_bool.
+
 Example C07_nonvacuous :
   td_str (mk_td (-1) 86399 999999) = [45; 48; 58; 48; 58; 48; 46; 48; 48; 48; 48; 48; 49]
   /\ str2timedelta [45; 48; 58; 48; 58; 48; 46; 48; 48; 48; 48; 48; 49] = Some (mk_td (-1) 86399 999999)
